@@ -90,6 +90,9 @@ type Config struct {
 	FeeMarket bool
 	// MinGasPrices node config (string, e.g. "4000000000000FX"); empty = none
 	MinGasPrices string
+	// BypassTypes / BypassGas: the node's bypass-min-fee configuration
+	BypassTypes []string
+	BypassGas   uint64
 }
 
 type World struct {
@@ -135,10 +138,15 @@ func New(cfg Config) *World {
 	}
 	w := &World{Cfg: cfg, Actors: map[string]Actor{}}
 	v := viper.New()
+	opts := []func(*baseapp.BaseApp){baseapp.SetChainID(ChainID)}
 	if cfg.MinGasPrices != "" {
-		v.Set("minimum-gas-prices", cfg.MinGasPrices)
+		opts = append(opts, baseapp.SetMinGasPrices(cfg.MinGasPrices))
 	}
-	w.App = app.New(log.NewNopLogger(), dbm.NewMemDB(), nil, false, map[int64]bool{}, "/nonexistent-fxmc-home", v, baseapp.SetChainID(ChainID))
+	if cfg.BypassTypes != nil {
+		v.Set("bypass-min-fee.msg-types", cfg.BypassTypes)
+		v.Set("bypass-min-fee.msg-max-gas-usage", cfg.BypassGas)
+	}
+	w.App = app.New(log.NewNopLogger(), dbm.NewMemDB(), nil, false, map[int64]bool{}, "/nonexistent-fxmc-home", v, opts...)
 	a := w.App
 	// harness-only seam (no change to /repo): the real begin-blocker followed by an optional hook that
 	// plays "governance executed this message" / scenario set-up inside a real FinalizeBlock.
